@@ -76,7 +76,7 @@ func init() {
 }
 
 // haveF64: the model driver formats floats (set once Base/F64.lean is merged).
-var haveF64 = false
+var haveF64 = true
 
 func genC17(g *G) {
 	n := g.N(6000, 120000)
